@@ -429,21 +429,26 @@ def run(tier, seed):
             stats["skipped"]["too many branches / wires for this tier"] = stats["skipped"].get("too many branches / wires for this tier", 0) + 1
             continue
         seen[ev["key"]] = seen.get(ev["key"], 0) + 1
-        if tier == "quick" and seen[ev["key"]] > 4:
-            stats["skipped"]["quick tier: more than 4 instances of one (operator, rule)"] = \
-                stats["skipped"].get("quick tier: more than 4 instances of one (operator, rule)", 0) + 1
+        if tier == "quick" and seen[ev["key"]] > 3:
+            stats["skipped"]["quick tier: more than 3 instances of one (operator, rule)"] = \
+                stats["skipped"].get("quick tier: more than 3 instances of one (operator, rule)", 0) + 1
             continue
         sel.append(ev)
     cases = [tlc_case(ev) for ev in sel]
     # second, independent encoding of every Pauli-product measurement (unitaries + one computational measurement)
-    gsel = [i for i, ev in enumerate(sel) if any(x["g"] == "PPM" for x in ev["ops"]) and ev["k"] <= 6]
+    gsel, gseen = [], {}
+    for i, ev in enumerate(sel):
+        if any(x["g"] == "PPM" for x in ev["ops"]) and ev["k"] <= 6:
+            gseen[ev["key"]] = gseen.get(ev["key"], 0) + 1
+            if tier != "quick" or gseen[ev["key"]] <= 1:
+                gsel.append(i)
     gcases = [tlc_case(sel[i], emit=1, ops=gadget_ops(sel[i]["ops"])) for i in gsel]
     # negative controls: (a) drop the last conditional correction, (b) flip one truth table, (c) wrong reference
     neg, neg_kind = [], []
     for i, ev in enumerate(sel):
         conds = [j for j, x in enumerate(ev["ops"]) if x["g"] == "COND" and x["op"]["g"] != "GlobalPhase" and
                  not (set(x["op"]["w"]) <= set(ev["aux"]))]
-        if not conds or len(neg) >= (12 if tier == "quick" else 40):
+        if not conds or len(neg) >= (9 if tier == "quick" else 36):
             continue
         j = conds[len(neg) % len(conds)]
         ops_a = [x for t, x in enumerate(ev["ops"]) if t != j]
